@@ -417,6 +417,8 @@ def partition_obs(arm, case, via, bystanders=()):
     by_before = {g: snapshot(storage, g) for g in bystanders}
     visible = lambda: [g for g in store_graph_ids(storage) if g not in bystanders]
     guids = {d: 'adm-guid-' + d for d in case.get('guids', [])}
+    for d in case.get('guids_self', []):   # the partition's graph is named after the delegation id (legal)
+        guids[d] = d
     bad = case.get('bad_guid')
     if bad and bad[0] == 'own':            # the caller names the aggregate model's own graph id
         guids[bad[1]] = garm
@@ -447,17 +449,31 @@ def partition_obs(arm, case, via, bystanders=()):
         obs['adms'][d] = {'gid': ren[gid], 'snap': strip_text(snapshot(storage, gid))}
     obs['store'] = sorted(ren.get(g, 'unexpected:' + str(g)) for g in visible())
     obs['after_generate'] = snapshot(storage, garm)
+    # re-keying, as a short sequence per partition: 'gid' = to the partition's own graph id (real_adm_id None),
+    # 'real' = to a caller-supplied id, 'same' = to the key the entries carry at that moment (first: the delegation id)
     obs['rw'] = {}
+    plan = case.get('rw_plan') or (['real'] if case.get('realid') else ['gid'])
     for d in sorted(adms):
         adm = NetworkXADMFactory.create(adms[d])
-        real = ('real-' + d) if case.get('realid') else None
-        raised = None
-        try:
-            adm.rewrite_delegations(real_adm_id=real)
-        except Exception as e:
-            raised = type(e).__name__
-        obs['rw'][d] = {'key': real if real else ren[adms[d].graph_id], 'raised': raised,
-                        'snap': rename_keys(strip_text(snapshot(storage, adms[d].graph_id)), ren)}
+        cur_actual, cur_name = d, d
+        steps = []
+        for kind in plan:
+            if kind == 'gid':
+                real, new_actual, new_name = None, adms[d].graph_id, ren[adms[d].graph_id]
+            elif kind == 'real':
+                real = new_actual = new_name = 'real-' + d
+            else:
+                real, new_actual, new_name = cur_actual, cur_actual, cur_name
+            raised = None
+            try:
+                adm.rewrite_delegations(real_adm_id=real)
+            except Exception as e:
+                raised = type(e).__name__
+            steps.append({'kind': kind, 'key': new_name, 'raised': raised,
+                          'snap': rename_keys(strip_text(snapshot(storage, adms[d].graph_id)), ren)})
+            if raised is None:
+                cur_actual, cur_name = new_actual, new_name
+        obs['rw'][d] = steps
     if case.get('rw_arm'):
         cl = NetworkXADMFactory.create(arm.clone_graph(new_graph_id='arm-clone'))
         raised = None
@@ -557,8 +573,9 @@ def case_to_coq(case, o):
         adms = 'Ok ' + clist(['(%s, %s, %s)' % (cN(enc.did(d)), cN(enc.gid(o['adms'][d]['gid'])), enc.graph(o['adms'][d]['snap']))
                               for d in ordered])
         keys = clist([cN(x) for x in sorted(enc.gid(g) for g in o['store'])])
-        rw = clist(['(%s, %s, (%s, %s))' % (cN(enc.did(d)), cN(enc.did(o['rw'][d]['key'])), enc.graph(o['rw'][d]['snap']),
-                                            cbool(o['rw'][d]['raised'] is not None)) for d in ordered])
+        rw = clist(['(%s, %s)' % (cN(enc.did(d)), clist(['(%s, (%s, %s))' % (cN(enc.did(st['key'])), enc.graph(st['snap']),
+                                                                             cbool(st['raised'] is not None))
+                                                         for st in o['rw'][d]])) for d in ordered])
     after = 'None' if strip_text(o['after']) == strip_text(o['before']) else '(Some %s)' % enc.graph(o['after'])
     rwa = 'None'
     if o.get('rw_arm'):
@@ -680,21 +697,22 @@ def oracle_case(case, o):
                 owners = [x for x in nb(B, s, 'has') if B['nodes'][x]['Class'] in ('NetworkNode', 'Component')]
                 if owners and (s not in PN or any(x not in PN for x in owners)):
                     return 'closure: interface %s of partition %s lost its service %s or the owner' % (nid, d, s), None
-        # re-keying
-        R = o['rw'][d]
-        if R['raised']:
-            return 'rekey: rewrite_delegations raised %s on partition %s' % (R['raised'], d), None
-        RN = R['snap']['nodes']
-        if set(RN) != set(PN) or R['snap']['edges'] != P['edges']:
-            return 'rekey: rewrite_delegations changed the node or edge set of partition %s' % d, None
-        for nid, pn in PN.items():
-            rn = RN[nid]
-            if (rn['Class'], rn['Stitch'], rn['props']) != (pn['Class'], pn['Stitch'], pn['props']):
-                return 'rekey: other properties of %s changed' % nid, None
-            for f in ('ld', 'cd'):
-                want = None if pn[f] is None else {R['key']: v for v in pn[f].values()}
-                if rn[f] != want:
-                    return 'rekey: node %s has %s %s after re-keying to %s, expected %s' % (nid, f, rn[f], R['key'], want), None
+        # re-keying, every step of the sequence: only the key changes, to the key asked for
+        for i, R in enumerate(o['rw'][d]):
+            what = 're-keying %d of partition %s (%s -> %s)' % (i + 1, d, R['kind'], R['key'])
+            if R['raised']:
+                return 'rekey: rewrite_delegations raised %s at %s' % (R['raised'], what), None
+            RN = R['snap']['nodes']
+            if set(RN) != set(PN) or R['snap']['edges'] != P['edges']:
+                return 'rekey: rewrite_delegations changed the node or edge set at %s' % what, None
+            for nid, pn in PN.items():
+                rn = RN[nid]
+                if (rn['Class'], rn['Stitch'], rn['props']) != (pn['Class'], pn['Stitch'], pn['props']):
+                    return 'rekey: other properties of %s changed at %s' % (nid, what), None
+                for f in ('ld', 'cd'):
+                    want = None if pn[f] is None else {R['key']: v for v in pn[f].values()}
+                    if rn[f] != want:
+                        return 'rekey: node %s has %s %s after %s, expected %s' % (nid, f, rn[f], what, want), None
     return None, weak
 
 
@@ -771,7 +789,8 @@ class C13Stream(Stream):
              'nodes_both': 0, 'nodes_none': 0, 'nodes_multi_id': 0, 'pool_definitions': 0, 'pool_references': 0,
              'stitch_nodes': 0, 'stitch_with_delegation': 0, 'empty_delegations_property': 0, 'via_annotate_api': 0,
              'links_with_3plus_cps': 0, 'interfaces_on_2plus_links': 0, 'proper_partitions': 0, 'partitions': 0, 'max_nodes': 0, 'total_nodes': 0,
-             'explicit_guids': 0, 'bad_guids_rejected': 0, 'raised': 0}
+             'explicit_guids': 0, 'bad_guids_rejected': 0, 'raised': 0, 'rekeyed_twice_or_more': 0,
+             'rekeyed_to_the_key_already_carried': 0, 'graph_named_after_its_delegation_id': 0}
         for c, o in zip(cases, obs):
             if 'before' not in o:
                 continue
@@ -781,6 +800,13 @@ class C13Stream(Stream):
             h['via_annotate_api'] += o.get('via') == 'annotate'
             h['explicit_guids'] += bool(o.get('asked_guids'))
             h['raised'] += 'err' in o
+            for d, steps in (o.get('rw') or {}).items():
+                h['rekeyed_twice_or_more'] += len(steps) > 1
+                cur = d
+                for st in steps:
+                    h['rekeyed_to_the_key_already_carried'] += st['key'] == cur
+                    cur = st['key']
+            h['graph_named_after_its_delegation_id'] += sum(1 for d, v in (o.get('adms') or {}).items() if v['gid'] == d)
             h['bad_guids_rejected'] += 'err' in o and bool(c.get('bad_guid'))
             h['max_nodes'] = max(h['max_nodes'], len(B['nodes']))
             h['total_nodes'] += len(B['nodes'])
@@ -842,6 +868,10 @@ class C13Stream(Stream):
                 case[k] = False
                 if not failing(case):
                     case[k] = True
+        if isinstance(case.get('guids_self'), list):
+            try_del(case['guids_self'])
+        if case.get('rw_plan') and len(case['rw_plan']) > 1:
+            try_del(case['rw_plan'])
         return case
 
 
@@ -890,6 +920,17 @@ def gen_annotations(rng, nodes, k, via):
         for m in members[1:]:
             ann.append([m, t, d, 'R', pid, 0])
     return ann
+
+
+RW_PLANS = [['gid'], ['real'], ['gid', 'gid'], ['real', 'real'], ['same'], ['gid', 'same'], ['gid', 'real'],
+            ['real', 'gid', 'gid'], ['same', 'real', 'same']]
+
+
+def gen_rw(rng, k, case):
+    """how the partitions are re-keyed (once, twice, to the key they already carry) and, in ~12% of the cases, a
+    delegation id used as the graph id of its own partition"""
+    case['rw_plan'] = rng.choice(RW_PLANS) if rng.random() < 0.6 else None
+    case['guids_self'] = [d for d in DIDS[:k] if rng.random() < 0.5] if rng.random() < 0.12 else []
 
 
 def gen_bad_guid(rng, k):
@@ -943,6 +984,7 @@ class Topo(C13Stream):
             case['ann'] = gen_annotations(rng, nodes, k, case['via'])
             case['guids'] = [d for d in DIDS[:k] if rng.random() < 0.3]
             case['bad_guid'] = gen_bad_guid(rng, k)
+            gen_rw(rng, k, case)
             case['realid'] = rng.random() < 0.5
             case['rw_arm'] = rng.random() < 0.15
             out.append(case)
@@ -1047,8 +1089,8 @@ class Hist(C13Stream):
                 rounds.insert(i, x)
             i -= 1
         for r in rounds:
-            for k in ('ann', 'unann', 'remove', 'facs', 'grow', 'guids'):
-                lst = r.get(k, [])
+            for k in ('ann', 'unann', 'remove', 'facs', 'grow', 'guids', 'guids_self', 'rw_plan'):
+                lst = r.get(k) or []
                 j = len(lst) - 1
                 while j >= 0:
                     x = lst.pop(j)
@@ -1084,6 +1126,7 @@ class Hist(C13Stream):
             case['ann'] = gen_annotations(rng, nodes, k, case['via'])
             case['guids'] = [d for d in DIDS[:k] if rng.random() < 0.3]
             case['bad_guid'] = None
+            gen_rw(rng, k, case)
             case['realid'] = rng.random() < 0.5
             case['rw_arm'] = False
             workers = ['S%d-w%d' % (si, wi) for si, s in enumerate(case['sites']) for wi in range(len(s.get('workers', [])))]
@@ -1092,6 +1135,7 @@ class Hist(C13Stream):
                 rnd = {'grow': [], 'facs': [], 'remove': [], 'unann': [], 'same_arm': rng.random() < 0.7,
                        'guids': [d for d in DIDS[:k] if rng.random() < 0.2], 'bad_guid': gen_bad_guid(rng, k) if rng.random() < 0.3 else None,
                        'realid': rng.random() < 0.5, 'rw_arm': False}
+                gen_rw(rng, k, rnd)
                 for j in range(rng.choice([0, 1, 1, 2])):
                     si = rng.randrange(len(case['sites']))
                     rnd['grow'].append({'site': si, 'name': 'S%d-g%d%d' % (si, r, j),
@@ -1183,6 +1227,7 @@ class Raw(C13Stream):
             case['ann'] = gen_annotations(rng, nodemap, k, 'direct')
             case['guids'] = [d for d in DIDS[:k] if rng.random() < 0.3]
             case['bad_guid'] = gen_bad_guid(rng, k)
+            gen_rw(rng, k, case)
             case['realid'] = rng.random() < 0.5
             case['rw_arm'] = rng.random() < 0.5
             out.append(case)
